@@ -1,4 +1,5 @@
 import FimVerif.Proofs.Lemmas.TopoInvNames
+import FimVerif.Proofs.Lemmas.TopoAtomicCompRb
 /-!
 # C07 — `Node.add_component` / `Node.add_storage`: every `add_node; add_link` pair of the catalogue expansion keeps `InvS`,
 so the invariant holds wherever the call stops (it is not atomic: C09).
@@ -102,7 +103,8 @@ theorem inv_ifaceLoop {P : Topo → Prop} (hP : AttachStable P) (nsId : Nid) (ns
     exact hP.attach h hm hn (by simp [nodeOk, classOk_all, hci.1]) (by simp [edgeOk, GNode.ref, hnc]) (by simp [hnc])
       (fun _ => hci.2) (.inl rfl)
 
-/-- the writing part of `compNew` (its join point after the validations) -/
+/-- the writing part of `compNew` (its join point after the validations); the expansion after the Component node runs
+inside the clean-up wrapper `compGuard` of `add_component_sliver` -/
 def compBody (b : Bool) (parent id : Nid) (c1 : Nat) (a : CompArgs) (p : GNode) (e : Rules.CatEntry) : M Topo Nid :=
   match (if b = true then ifaceIds a.ifNids e.ifaces.length c1 else ([], c1)) with
   | (ifIds, c2) =>
@@ -110,16 +112,19 @@ def compBody (b : Bool) (parent id : Nid) (c1 : Nat) (a : CompArgs) (p : GNode) 
     | (nsId, _) => do
       let kw ← M.ofExcept (validateProps a.props)
       addGNode ⟨.component, id, a.name, e.ctype, dictUpdate [("Model", e.model), ("Details", e.details), ("StitchNode", "false")] kw⟩
-      addEdge parent .has id
-      if b then do
-        addGNode ⟨.networkService, nsId, p.name ++ "-" ++ a.name ++ e.nsSuffix, e.nsType, [("StitchNode", "false"), ("Layer", "L2")]⟩
-        addEdge id .has nsId
-        forEach (e.ifaces.zip ifIds) (fun (ci, iid) => do
-          addGNode ⟨.connectionPoint, iid, a.name ++ "-" ++ ci.port, ci.itype, ci.props⟩
-          addEdge nsId .connects iid)
-      else Pure.pure ()
+      compGuard id (do
+        addEdge parent .has id
+        if b then do
+          addGNode ⟨.networkService, nsId, p.name ++ "-" ++ a.name ++ e.nsSuffix, e.nsType, [("StitchNode", "false"), ("Layer", "L2")]⟩
+          addEdge id .has nsId
+          forEach (e.ifaces.zip ifIds) (fun (ci, iid) => do
+            addGNode ⟨.connectionPoint, iid, a.name ++ "-" ++ ci.port, ci.itype, ci.props⟩
+            addEdge nsId .connects iid)
+        else Pure.pure ())
       Pure.pure id
 
+/-- whatever `Rules.componentRollback` is: without the clean-up every `add_node; add_link` pair of the expansion keeps `P`
+wherever the call stops; with it, a raise gives back the start state (`compGuard_attach_cases`, C09) -/
 theorem inv_compBody {P : Topo → Prop} (hP : AttachStable P) (b : Bool) (parent id : Nid) (c1 : Nat) (a : CompArgs) (p pn : GNode) (e : Rules.CatEntry) (s : Topo) (h : P s)
     (hp : findNode parent s = (.ok pn, s)) (hpc : pn.cls = .networkNode) (he : EntryOk e) (hb : b = e.hasIfaces)
     (hnm : ∀ m ∈ kids s pn.ref .has .component, m.name ≠ a.name) :
@@ -131,22 +136,35 @@ theorem inv_compBody {P : Topo → Prop} (hP : AttachStable P) (b : Bool) (paren
   dsimp only
   refine ro_step (Q := fun r => P r.2) (by ro) (fun _ => h) (fun kw _ => ?_)
   obtain ⟨hpm, _, _⟩ := findNode_ok hp
-  refine inv_attach_step hP (n := ⟨.component, id, a.name, e.ctype, _⟩) h hp (fun hn => ?_)
-  have h1 : P (grow s [⟨.component, id, a.name, e.ctype, dictUpdate [("Model", e.model), ("Details", e.details), ("StitchNode", "false")] kw⟩]
-      [⟨pn.ref, GNode.ref ⟨.component, id, a.name, e.ctype, dictUpdate [("Model", e.model), ("Details", e.details), ("StitchNode", "false")] kw⟩, .has⟩]) :=
-    hP.attach h hpm hn (by simp [nodeOk, classOk_all, he.ctype]) (by simp [edgeOk, GNode.ref, hpc]) (by simp [hpc]) (by simp)
-      (.inr (.inr hnm))
-  split
-  · rename_i hifs
-    refine inv_attach_step hP (n := ⟨.networkService, nsId, p.name ++ "-" ++ a.name ++ e.nsSuffix, e.nsType, _⟩) h1
-      (findNode_grow_new hn) (fun hn2 => ?_)
-    rw [state_after_bind _ _ (fun _ _ => rfl)]
-    refine inv_ifaceLoop hP nsId _ a.name rfl _ _ ?_ (findNode_grow_new hn2) ?_
-    · exact hP.attach h1 (by simp [grow]) hn2 (by simp [nodeOk, classOk_all, he.nstype (hb ▸ hifs)]) (by simp [edgeOk, GNode.ref])
-        (by simp) (by simp) (nameFree_new_parent (hP.closed _ h) hpm hn)
-    · intro x hx
-      exact he.ifaces x.1 (List.of_mem_zip hx).1
-  · exact h1
+  rcases addGNode_cases ⟨.component, id, a.name, e.ctype, dictUpdate [("Model", e.model), ("Details", e.details), ("StitchNode", "false")] kw⟩ s
+    with hadd | ⟨hadd, hn⟩
+  · rw [bind_err hadd]; exact h
+  · rw [bind_ok hadd, state_after_bind _ _ (fun _ _ => rfl), compAttach_eq b parent id nsId p.name a.name e ifIds]
+    generalize hcn : (⟨.component, id, a.name, e.ctype, dictUpdate [("Model", e.model), ("Details", e.details), ("StitchNode", "false")] kw⟩ : GNode) = cn at hn
+    have hcid : cn.nid = id := by rw [← hcn]
+    have hccls : cn.cls = .component := by rw [← hcn]
+    subst hcid
+    rcases compGuard_attach_cases (sn := ⟨.networkService, nsId, p.name ++ "-" ++ a.name ++ e.nsSuffix, e.nsType, [("StitchNode", "false"), ("Layer", "L2")]⟩)
+      ⟨hP.closed _ h, hP.ids _ h, hpm, hccls, by simp [hpc], hn⟩ hp rfl b a.name (e.ifaces.zip ifIds) with hg | ⟨_, e', hg⟩
+    · -- the wrapper is transparent: the expansion itself
+      rw [hg]
+      unfold compAttach
+      rw [bind_ok (addEdge_run (findNode_push_old hp hn) (findNode_push_new hn)), attach_state (hP.closed _ h) hn]
+      have h1 : P (grow s [cn] [⟨pn.ref, cn.ref, .has⟩]) :=
+        hP.attach h hpm hn (by rw [← hcn]; simp [nodeOk, classOk_all, he.ctype]) (by simp [edgeOk, GNode.ref, hpc, hccls]) (by simp [hpc])
+          (by simp [hccls]) (.inr (.inr (by rw [← hcn]; exact hnm)))
+      split
+      · rename_i hifs
+        refine inv_attach_step hP (n := ⟨.networkService, nsId, p.name ++ "-" ++ a.name ++ e.nsSuffix, e.nsType, _⟩) h1
+          (findNode_grow_new hn) (fun hn2 => ?_)
+        refine inv_ifaceLoop hP nsId _ a.name rfl _ _ ?_ (findNode_grow_new hn2) ?_
+        · exact hP.attach h1 (by simp [grow]) hn2 (by simp [nodeOk, classOk_all, he.nstype (hb ▸ hifs)]) (by simp [edgeOk, GNode.ref, hccls])
+            (by simp [hccls]) (by simp) (nameFree_new_parent (hP.closed _ h) hpm hn)
+        · intro x hx
+          exact he.ifaces x.1 (List.of_mem_zip hx).1
+      · exact h1
+    · -- the clean-up ran: the start state is back
+      rw [hg]; exact h
 
 theorem inv_compNew {P : Topo → Prop} (hP : AttachStable P) (fl : Flavour) (c : Nat) (parent : Nid) (a : CompArgs) (s : Topo) (hh : HandleOk s parent .networkNode)
     (hnm : ∀ pn, findNode parent s = (.ok pn, s) → ∀ m ∈ kids s pn.ref .has .component, m.name ≠ a.name)
@@ -162,7 +180,7 @@ theorem inv_compNew {P : Topo → Prop} (hP : AttachStable P) (fl : Flavour) (c 
   refine ro_step (Q := fun r => P r.2) (by ro) (fun _ => h) (fun p hp => ?_)
   refine ro_step (Q := fun r => P r.2) (by ro) (fun _ => h) (fun e he => ?_)
   refine ro_step (Q := fun r => P r.2) (by ro) (fun _ => h) (fun _ _ => ?_)
-  have heo : EntryOk e := entryOk_of_find (need_ok ⟨s, he⟩)
+  have heo : EntryOk e := entryOk_of_find (need_some ⟨s, he⟩)
   obtain ⟨hpm, hpi, _⟩ := findNode_ok hp
   have hpc : p.cls = .networkNode := hh p hpm hpi
   have leaf : ∀ b, b = e.hasIfaces → P (compBody b parent id c1 ⟨nm, nid, ctype, model, nsNid, ifNids, nLabels, props⟩ p e s).2 :=
